@@ -258,6 +258,19 @@ pub fn build<Data: GarnishData>(parse_root: usize, parse_tree: Vec<ParseNode>, d
         }
     }
 
+    // every node of the tree must have been scheduled by its parent's handler, a node that was not
+    // (e.g. a value hanging on the unused side of a unary operator) would be silently left out of the program
+    for (index, (build_node, parse_node)) in nodes.iter().zip(parse_tree.iter()).enumerate() {
+        if build_node.is_none() && parse_node.get_definition() != Definition::Subexpression {
+            Err(CompilerError::new_message(format!(
+                "{:?} node {} has no place in the instructions of its parent, it would be ignored.",
+                parse_node.get_definition(),
+                index
+            ))
+            .append_token_details(&parse_node.get_lex_token()))?;
+        }
+    }
+
     Ok(BuildData::new(parse_root, parse_tree, tree_root_jump, instruction_metadata))
 }
 
